@@ -288,7 +288,9 @@ public:
 
         m_data.erase(theFirst, theLast);
 
-        m_size = m_data.size() - 1;
+        // If the string has no buffer, there's no terminating
+        // null character to account for.
+        m_size = m_data.empty() == true ? 0 : m_data.size() - 1;
 
         invariants();
 
